@@ -1,4 +1,5 @@
 import UF.Compose.NetRules
+import UF.Compose.Texts
 import UF.Props.C01
 import UF.Proofs.EngineDns
 /-
@@ -113,6 +114,23 @@ theorem c01_storage_perm (io : IO) (px : E.ParseExt) (lists lists' : List RList)
   constructor
   · rintro ⟨l, hl, rest⟩; exact ⟨l, hperm.mem_iff.1 hl, rest⟩
   · rintro ⟨l, hl, rest⟩; exact ⟨l, hperm.mem_iff.2 hl, rest⟩
+
+/-- Splits, ids, duplicates, noise, line ends: two storages whose accepted network rules carry the same SET
+    OF TEXTS report the same texts for every request — however the lines are split across lists, whatever
+    the list ids, the order, the multiplicities, the blank / comment / rejected / non-network lines between
+    them and the line ends (this is C12's inertness and C01's "every split of the lists", from bytes). -/
+theorem c01_storage_texts (io : IO) (px : E.ParseExt) (lists lists' : List RList)
+    (hok : StorageOK lists) (hok' : StorageOK lists')
+    (st st' : RuleStorage) (hnew : newRuleStorage lists = some st) (hnew' : newRuleStorage lists' = some st')
+    (history history' : List (BitVec 64)) (q : Request)
+    (h : ∀ t, t ∈ (netRulesOf (specRules px lists)).map (·.text) ↔ t ∈ (netRulesOf (specRules px lists')).map (·.text))
+    (t : Bytes) :
+    t ∈ ((Engine.build djb2 Facts.shortcutLength (storageNetRules px lists)).matchAll djb2 Facts.shortcutLength
+          (retrieveNet (retrieveAt io px (reach io px st history))) px.ext q).map (·.text) ↔
+    t ∈ ((Engine.build djb2 Facts.shortcutLength (storageNetRules px lists')).matchAll djb2 Facts.shortcutLength
+          (retrieveNet (retrieveAt io px (reach io px st' history'))) px.ext q).map (·.text) := by
+  rw [c01_storage io px lists hok st hnew history q t, c01_storage io px lists' hok' st' hnew' history' q t]
+  exact specMatchAll_texts_congr px lists lists' q h t
 
 /-- Backing and cache history do not matter: String- or File-backed in any mixture, any two histories. -/
 theorem c01_storage_backing (io io' : IO) (px : E.ParseExt) (lists : List RList) (flags : RList → Bool)
